@@ -15,6 +15,7 @@ import Mathlib.Tactic.FinCases
 import ClarabelProofs.Lemmas.InfoConesAll
 import ClarabelProofs.Lemmas.InfoPresolveUser
 import ClarabelProofs.Lemmas.InfoRollback
+import ClarabelProofs.Props.C02Full
 
 namespace Clarabel.C02
 open Clarabel.Dense Clarabel.Info Finset
